@@ -119,8 +119,8 @@ def _replay(hist):
                                 try:
                                     path = asker.file_manager.get_named_file(ref)
                                 except Exception as e:
-                                    if len(with_data) < len(admissible) and "does not point to a data file" in str(e):
-                                        continue      # the most recent (earliest) run has no data, and the reference says so
+                                    if len(with_data) < len(admissible):
+                                        continue      # the most recent (earliest) run has no data to resolve to: the reference fails rather than answer with another run
                                     return {"kind": "rundirs", "step": i, "ops": ops, "what": f"reference {ref} raised (asked by {who})", "raised": f"{type(e).__name__}: {e}", "admissible": admissible}
                                 parts = path.split(os.sep)
                                 got = parts[-3]
@@ -219,7 +219,7 @@ def main(tier):
                 f"spec; all histories of length <= {emit_len} (two representative methods) and random histories of length {sim[1]} are replayed "
                 "with a fake clock. every history is non-trivial (>= 1 run).")
     rep.assumptions = ["TLC; csvpath.csvpaths.datetime replaced by a fake clock", "same-second ties of :last/:first left open",
-                       "a reference whose most recent (earliest) run was a fast-forward run may answer 'does not point to a data file'; it may not answer with another run"]
+                       "a reference whose most recent (earliest) run was a fast-forward run may raise; it may not answer with another run"]
     return rep.finish()
 
 
